@@ -25,14 +25,14 @@ inline Prog decode(hz::Reader &r, bool allow_self_stop) {
     uint8_t amask = r.u8();
     for (unsigned i = 0; i < n; i++) p.jobs[i].again = (uint8_t)(p.jobs[i].kind == K_COAWAIT && ((amask >> i) & 1));
     for (unsigned i = 0; i < n; i++) p.jobs[i].conc = (uint8_t)(p.jobs[i].kind == K_COAWAIT_AWT_PENDING && ((amask >> (i + 4)) & 1));
-    for (unsigned i = 0; i < n; i++) p.jobs[i].big = (uint8_t)((p.jobs[i].kind == K_RUN_FN || p.jobs[i].kind == K_RUN_DETACHED) && ((amask >> (i + 4)) & 1));
+    for (unsigned i = 0; i < n; i++) p.jobs[i].big = (uint8_t)((p.jobs[i].kind == K_RUN_FN || p.jobs[i].kind == K_RUN_DETACHED || p.jobs[i].kind == K_RESUME_SP) && ((amask >> (i + 4)) & 1));     // (resume(suspend_point): the suspend point carries TWO coroutines)
     return p;
 }
 inline std::string describe(const Prog &p) {
     static const char *kn[] = {"co_await pool", "co_await pool(ready awaitable)", "co_await pool(pending awaitable)", "run(fn)", "run_detached(fn)", "run(async)", "resume(suspend_point)"};
     static const char *sw[] = {"destructor only", "owner stop() before job #", "a pool job calls stop() after job #", "owner stop() after all jobs, then destructor"};
     hz::Desc d; d << "pool(" << (unsigned)p.workers << " workers); jobs:";
-    for (auto &j : p.jobs) d << " [" << (j.where ? "2nd thread, " : "") << "yield*" << (unsigned)j.yields << ", " << kn[j.kind] << (j.again ? ", then co_await thread_pool::current()" : "") << (j.big ? ", 128-byte closure" : "") << (j.conc ? ", awaitable resolved by a helper thread" : "") << "]";
+    for (auto &j : p.jobs) d << " [" << (j.where ? "2nd thread, " : "") << "yield*" << (unsigned)j.yields << ", " << kn[j.kind] << (j.again ? ", then co_await thread_pool::current()" : "") << (j.big ? (j.kind == K_RESUME_SP ? ", two coroutines in the suspend point" : ", 128-byte closure") : "") << (j.conc ? ", awaitable resolved by a helper thread" : "") << "]";
     d << "; stop: " << sw[p.stop_who];
     if (p.stop_who == 1 || p.stop_who == 2) d << (unsigned)p.stop_pos;
     return d.s;
@@ -42,6 +42,7 @@ struct JRec {
     int kind = 0;
     int ran = 0, cancelled = 0;
     int ran2 = 0, cancelled2 = 0; bool on_worker2 = false;     // second stage: after co_await thread_pool::current()
+    int ran_b = 0; bool on_worker_b = false; int t_ran_b = 0;    // resume(suspend_point): the SECOND coroutine carried by the same suspend point
     bool on_worker = false;
     int t_submit_begin = 0, t_submit_end = 0, t_ran = 0;
     int t_start_ret = 0;      // conc variant: when start() of the coroutine returned to the submitter
@@ -57,6 +58,7 @@ struct Ctx {
     // per job resources that must outlive the pool
     // indexed by job (two threads submit concurrently: no shared growing containers)
     std::vector<std::unique_ptr<cocls::future<void>>> co_done;     // coroutine-kind jobs
+    std::vector<std::unique_ptr<cocls::future<void>>> co_done_b;   // second coroutine of a two-handle suspend point
     std::vector<std::unique_ptr<cocls::future<int>>> int_futs;     // run(fn) / run(async)
     std::vector<std::unique_ptr<cocls::future<int>>> gates;        // awaitables of K_COAWAIT_AWT_*
     std::vector<std::unique_ptr<cocls::future<void>>> vgates;      // parked coroutines of K_RESUME_SP
@@ -90,6 +92,10 @@ inline cocls::async<void> job_coawait_awt(Ctx &c, int i, cocls::future<int> *gat
     catch (const cocls::await_canceled_exception &) { c.j[(size_t)i].cancelled++; c.touch_pool(); }
 }
 inline cocls::async<int> job_async(Ctx &c, int i) { c.mark_ran(i); co_return 9; }
+inline cocls::async<void> job_parked_b(Ctx &c, int i, cocls::future<void> *gate) {
+    try { co_await *gate; JRec &r = c.j[(size_t)i]; r.ran_b++; r.on_worker_b = is_current(*c.pp); r.t_ran_b = hz::tick(); }
+    catch (const cocls::await_canceled_exception &) {}
+}
 inline cocls::async<void> job_parked(Ctx &c, int i, cocls::future<void> *gate) {
     try { co_await *gate; c.mark_ran(i); c.touch_pool(); }
     catch (const cocls::await_canceled_exception &) { c.j[(size_t)i].cancelled++; }
@@ -143,7 +149,8 @@ inline void submit(Ctx &c, int i) {
             c.vgates[u].reset(new cocls::future<void>());
             cocls::promise<void> pr = c.vgates[u]->get_promise();
             c.co_done[u].reset(new cocls::future<void>(job_parked(c, i, c.vgates[u].get()).start()));
-            pool.resume(pr());     // the suspend point carries the parked coroutine
+            if (c.p->jobs[u].big) c.co_done_b[u].reset(new cocls::future<void>(job_parked_b(c, i, c.vgates[u].get()).start()));
+            pool.resume(pr());     // the suspend point carries the parked coroutine(s)
         } break;
     }
     r.t_submit_end = hz::tick();
@@ -155,7 +162,7 @@ inline void run(hz::Reader &rd, bool allow_self_stop) {
     {
         Ctx c; c.p = &p; c.j.resize(p.jobs.size());
         for (size_t i = 0; i < p.jobs.size(); i++) c.j[i].kind = p.jobs[i].kind;
-        c.co_done.resize(p.jobs.size()); c.int_futs.resize(p.jobs.size()); c.gates.resize(p.jobs.size()); c.vgates.resize(p.jobs.size());
+        c.co_done.resize(p.jobs.size()); c.co_done_b.resize(p.jobs.size()); c.int_futs.resize(p.jobs.size()); c.gates.resize(p.jobs.size()); c.vgates.resize(p.jobs.size());
         c.pool.reset(new cocls::thread_pool(p.workers));
         c.pp = c.pool.get();
         // a second thread submits its share concurrently with the owner (and with the owner's stop())
@@ -221,6 +228,10 @@ inline void run(hz::Reader &rd, bool allow_self_stop) {
                 if (!r.ran) r.cancelled = 1;       // observable only through the closure's destruction, checked below
             }
             HZ_CHECK(r.ran + r.cancelled == 1, "job %zu (kind %d): ran %d times and was cancelled %d times (exactly one of the two expected)", i, r.kind, r.ran, r.cancelled);
+            if (r.kind == K_RESUME_SP && p.jobs[i].big) {
+                HZ_CHECK(c.co_done_b[i] && c.co_done_b[i]->ready() && r.ran_b == 1, "job %zu: the second coroutine carried by the suspend point handed to resume() ran %d times (every carried coroutine is handed to the pool)", i, r.ran_b);
+                if (!r.on_worker_b) HZ_CHECK(r.t_ran_b > c.t_stop_begin, "job %zu: the second coroutine of the suspend point handed to resume() ran outside the pool's workers although the pool had not been stopped yet", i);
+            }
             if (p.jobs[i].again && r.ran) {
                 HZ_CHECK(r.ran2 + r.cancelled2 == 1, "job %zu re-submitted itself with co_await thread_pool::current(): it continued %d times and was cancelled %d times (exactly one of the two expected)", i, r.ran2, r.cancelled2);
                 if (r.ran2) HZ_CHECK(r.on_worker2, "job %zu continued after co_await thread_pool::current() without exception, but not on one of the pool's worker threads", i);
